@@ -10,7 +10,7 @@ import operator
 from hypothesis import strategies as st
 
 from vf.engine import Sub, require, bitstring_module, Violation
-from vf.common import bits_st, bits_of_len, attempt, is_raised, mk, index_st, slice_st
+from vf.common import bits_st, bits_of_len, attempt, is_raised, mk, index_st, slice_st, to_bytes
 from vf import codecs
 from vf.codecs import same_value
 from vf.props import c11
@@ -383,6 +383,21 @@ class AM:
         if len(a.data):
             same.data.invert(0)
             require(not same.equals(a), 'Arrays with different data are equal()')
+        # equals(array.array): the item sizes must agree and then the decoded items decide - not the raw bytes
+        if self.w in (8, 16, 32, 64) and self.items and self.dt.kind in ('uint', 'int', 'float'):
+            for tc in 'bBhHiIlLqQfd':
+                other = pyarray.array(tc)
+                if other.itemsize * 8 != self.w:
+                    continue
+                other.frombytes(to_bytes(''.join(self.items)))
+                ol = other.tolist()
+                mine = [self.dt.dec(b) for b in self.items]
+                if any(isinstance(v, float) and math.isnan(v) for v in ol + mine):
+                    continue
+                want = (not self.trail) and mine == ol
+                got = a.equals(other)
+                require(got is want, 'equals(array.array) must be True exactly when there are no trailing bits, the item sizes agree and the items are equal', got=got, expected=want,
+                        typecode=tc, dtype=self.dt.spec, mine=mine[:4], theirs=ol[:4])
         require(a.tobytes() == mk('Bits', a.data.bin).tobytes(), 'tobytes differs from the data bytes')
 
     def do_astype(self):
